@@ -115,6 +115,7 @@ def run_matrix(pid: str, repo: str, rep, jobs: Optional[int] = None) -> dict:
             summary["fired" if expect == "fire" else "silent"] += 1
         elif status == "stale":
             summary["stale"] += 1
+            rep.note("self-test variant %s is stale (its anchor text is not in the current tree); skipped" % name)
         else:
             summary["failures"].append("%s (%s): %s %s" % (name, expect, status, info))
     summary["details"] = details
